@@ -499,7 +499,12 @@ def r10_poll_map_err(text, variant, count=-1):
     """X.poll_ready(cx).map_err(V) -> three-arm match on Poll (R10, Poll form)."""
     pat = r"((?:[A-Za-z_]\w*)(?:\s*\.\s*[A-Za-z_]\w*)*\s*\.\s*poll_ready\(\s*cx\s*\))\s*\.\s*map_err\(\s*%s\s*\)" % re.escape(variant)
     repl = "(match \\1 { Poll::Ready(Ok(vx_v)) => Poll::Ready(Ok(vx_v)), Poll::Ready(Err(vx_e)) => Poll::Ready(Err(%s(vx_e))), Poll::Pending => Poll::Pending })" % variant
-    return sub(text, pat, repl, count=count, name="R10p")
+    text, k = sub(text, pat, repl, count=count, name="R10p")
+    # the same on a simple local that holds a Poll (`other.map_err(V)` in a match arm of a poll function)
+    pat2 = r"(?<![\w.)])([a-z_]\w*)\s*\.\s*map_err\(\s*%s\s*\)" % re.escape(variant)
+    repl2 = "(match \\1 { Poll::Ready(Ok(vx_v)) => Poll::Ready(Ok(vx_v)), Poll::Ready(Err(vx_e)) => Poll::Ready(Err(%s(vx_e))), Poll::Pending => Poll::Pending })" % variant
+    text, k2 = sub(text, pat2, repl2, count=-1, name="R10p")
+    return text, k + k2
 
 
 ATOMIC_OPS = ("load", "store", "compare_exchange_weak", "compare_exchange", "fetch_add", "fetch_sub", "swap", "fetch_max", "fetch_min")
